@@ -227,6 +227,9 @@ var c03Templates = [...]string{
 	`["\u00??"]`, `-?.?`, `[1,2?3]`, `{"a":"b","?":"d"}`, `[true,null]`, `["ab","c?"]`, `[fals?]`,
 	// a free byte at a structural position (after a member, after a comma, between values)
 	`{"a":"b",?}`, `{"a":true?}`, `[{"a":[1]?}]`, `{"":{}?}`, `[[],?]`, `{"a":1 ?}`, `{"a":"b"?"c":1}`, `["a"?"b"]`, `{"a"?"b"}`,
+	// numbers long enough to leave the uint64 accumulators for the text form (hidden number state), then free bytes
+	`12345678901234567890??`, `[12345678901234567890?]`, `2000000000000000000??`, `1.2345678901234567890??`, `{"a":-12345678901234567890?}`,
+	`[1.5e12345678901234567890?]`,
 }
 
 // VerifC03_Templates: JSON skeletons with free symbolic bytes ('?') at the
@@ -318,9 +321,27 @@ func (h *builder) result() any {
 	return nil
 }
 
+// simplify is gen.Node.Simplify except that a gen.Big (which simplifies to a
+// plain string of its digits) becomes the json.Number the other front-ends
+// deliver for the same text.
 func simplify(n gen.Node) any {
-	if n == nil {
+	switch t := n.(type) {
+	case nil:
 		return nil
+	case gen.Big:
+		return jsonNumber(string(t))
+	case gen.Array:
+		a := make([]any, len(t))
+		for i, m := range t {
+			a[i] = simplify(m)
+		}
+		return a
+	case gen.Object:
+		o := make(map[string]any, len(t))
+		for k, m := range t {
+			o[k] = simplify(m)
+		}
+		return o
 	}
 	return n.Simplify()
 }
